@@ -2,6 +2,7 @@ package main
 
 import (
 	"fmt"
+	"go/token"
 	"sort"
 	"strings"
 
@@ -605,4 +606,191 @@ func closedOnEveryWayOut(ins ssa.Instruction, conn ssa.Value) bool {
 		return true
 	}
 	return walk(b0, start)
+}
+
+// ruleNoReadDeadlineLeftArmed: a deadline that covers reads, armed on a client connection that is
+// served afterwards, turns a client that is merely idle or slow into one whose next request is
+// never answered (the parser's Read times out and the loop closes the connection). Arming one is
+// accepted only when the same function clears it again on every way out — directly or by a
+// deferred call — with SetReadDeadline or SetDeadline of the zero time. (SetDeadline arms both
+// directions: clearing the write side alone leaves the read side armed.)
+func ruleNoReadDeadlineLeftArmed(c *Ctx, rid string) {
+	c.rule(rid, "every SetDeadline/SetReadDeadline with a non-zero time on a client connection that is served afterwards is followed, on every path to the function's return (or by a deferred call), by SetReadDeadline or SetDeadline with the zero time on the same connection")
+	isZeroTime := func(v ssa.Value) bool {
+		v = strip(v)
+		if k, ok := v.(*ssa.Const); ok {
+			return k.Value == nil
+		}
+		if ld, ok := v.(*ssa.UnOp); ok && ld.Op == token.MUL {
+			if a, ok := ld.X.(*ssa.Alloc); ok && len(allocStores(a)) == 0 {
+				return true
+			}
+		}
+		return false
+	}
+	n, bad, configured := 0, 0, 0
+	for _, fn := range c.P.RepoFuncs(pkgRedis) {
+		if !inFramework(fn) {
+			continue
+		}
+		type site struct {
+			ins  ssa.Instruction
+			recv ssa.Value
+		}
+		var arms []site
+		clears := func(ins ssa.Instruction, recv ssa.Value) bool {
+			cc := callCommon(ins)
+			if cc == nil {
+				return false
+			}
+			nme := calleeName(cc)
+			if !(strings.HasSuffix(nme, ".SetDeadline") || strings.HasSuffix(nme, ".SetReadDeadline")) {
+				return false
+			}
+			args := cc.Args
+			r := cc.Value
+			if !cc.IsInvoke() && len(args) > 0 {
+				r, args = args[0], args[1:]
+			}
+			return len(args) == 1 && isZeroTime(args[0]) && connObjectOf(r) == connObjectOf(recv)
+		}
+		allInstrs(fn, func(ins ssa.Instruction) {
+			if _, isDefer := ins.(*ssa.Defer); isDefer {
+				return
+			}
+			cc := callCommon(ins)
+			if cc == nil {
+				return
+			}
+			nme := calleeName(cc)
+			if !(strings.HasSuffix(nme, ".SetDeadline") || strings.HasSuffix(nme, ".SetReadDeadline")) {
+				return
+			}
+			args := cc.Args
+			recv := cc.Value
+			if !cc.IsInvoke() && len(args) > 0 {
+				recv, args = args[0], args[1:]
+			}
+			if recv == nil || len(args) != 1 || isZeroTime(args[0]) {
+				return
+			}
+			if !(isConnLikeType(recv.Type()) || isConnLikeType(strip(recv).Type())) {
+				return
+			}
+			if closedOnEveryWayOut(ins, recv) {
+				return
+			}
+			if derivesFromConfig(args[0], 0) {
+				// an idle timeout the operator configures (Redis' `timeout`): closing idle clients
+				// is then the configured behaviour, not a side effect of another change
+				configured++
+				return
+			}
+			arms = append(arms, site{ins, recv})
+		})
+		for i, a := range arms {
+			n++
+			c.analysed(fn)
+			key := fmt.Sprintf("%s/read-deadline#%d", fnName(fn), i)
+			cleared := mustPassThroughFrom(fn, a.ins, func(ins ssa.Instruction) bool { return clears(ins, a.recv) })
+			if !cleared {
+				// a deferred clearing call registered anywhere in the function
+				allInstrs(fn, func(ins ssa.Instruction) {
+					if d, ok := ins.(*ssa.Defer); ok && clears(d, a.recv) {
+						cleared = true
+					}
+				})
+			}
+			if cleared {
+				c.ok(rid, key, c.P.instrPos(a.ins), "the deadline is cleared for reads before the function returns")
+			} else {
+				bad++
+				c.bad(rid, key, c.P.instrPos(a.ins), "a deadline covering reads is armed on a client connection and not cleared for reads on every way out: an idle or slow client's next request is cut off and never answered")
+			}
+		}
+	}
+	c.count("read-deadline-sites", n)
+	c.count("operator-configured-idle-deadlines", configured)
+	if n == 0 {
+		c.ok(rid, "no-read-deadline", "", "no deadline covering reads is armed on a client connection that is served afterwards")
+	}
+}
+
+// mustPassThroughFrom: every path from just after `from` to a return of fn executes an instruction accepted by hit.
+func mustPassThroughFrom(fn *ssa.Function, from ssa.Instruction, hit func(ssa.Instruction) bool) bool {
+	type st struct{ Live, Hit bool }
+	ok := true
+	a := &Auto[st]{Fn: fn, Init: st{},
+		Step: func(s st, ins ssa.Instruction, fail func(string)) []st {
+			if ins == from {
+				return []st{{Live: true}}
+			}
+			if !s.Live {
+				return []st{s}
+			}
+			if hit(ins) {
+				s.Hit = true
+			}
+			if r, isRet := ins.(*ssa.Return); isRet && r.Block() != fn.Recover && !s.Hit {
+				ok = false
+			}
+			return []st{s}
+		}}
+	a.Run()
+	return ok
+}
+
+// derivesFromConfig: the time value is computed (time.Now().Add(d), arithmetic, conversions)
+// from the result of a Config* accessor of the server configuration.
+func derivesFromConfig(v ssa.Value, d int) bool {
+	if v == nil || d > 8 {
+		return false
+	}
+	v = strip(v)
+	switch x := v.(type) {
+	case *ssa.Call:
+		cc := x.Common()
+		if n := calleeName(cc); strings.Contains(n, ").Config") || strings.Contains(n, ".Config") && cc.IsInvoke() {
+			return true
+		}
+		for _, a := range cc.Args {
+			if derivesFromConfig(a, d+1) {
+				return true
+			}
+		}
+	case *ssa.Extract:
+		return derivesFromConfig(x.Tuple, d+1)
+	case *ssa.BinOp:
+		return derivesFromConfig(x.X, d+1) || derivesFromConfig(x.Y, d+1)
+	case *ssa.Convert:
+		return derivesFromConfig(x.X, d+1)
+	case *ssa.Phi:
+		for _, e := range x.Edges {
+			if derivesFromConfig(e, d+1) {
+				return true
+			}
+		}
+	case *ssa.Parameter:
+		fn := x.Parent()
+		if theProgram == nil || fn.Object() != nil && fn.Object().Exported() {
+			return false
+		}
+		idx := -1
+		for i, q := range fn.Params {
+			if q == x {
+				idx = i
+			}
+		}
+		sites := theProgram.staticCallSites(fn)
+		if len(sites) == 0 || idx < 0 {
+			return false
+		}
+		for _, ci := range sites {
+			if idx >= len(ci.Common().Args) || !derivesFromConfig(ci.Common().Args[idx], d+1) {
+				return false
+			}
+		}
+		return true
+	}
+	return false
 }
